@@ -1,7 +1,7 @@
 (* C06 - no filesystem side effects outside the directories designated for them.
    Only statements here; proofs are in Proofs.v / PathBytesProofs.v. *)
 From Coq Require Import List NArith ZArith Bool.
-From Scalibr Require Import Contain.PathBytes Contain.PathBytesProofs Contain.Model Contain.Proofs.
+From Scalibr Require Import Contain.PathBytes Contain.PathBytesProofs Contain.Model Contain.Proofs Contain.FullProofs Contain.LexProofs.
 Import ListNotations.
 Open Scope N_scope.
 
@@ -47,13 +47,59 @@ Theorem target_outside_root_sound : forall (marker : seg) pth target,
 Proof. exact target_outside_root_sound_lemma. Qed.
 Print Assumptions target_outside_root_sound.
 
-(* ================= unpack.go (behaviour after fix c7e8b5e1) ================= *)
-(* Positive theorems on the domain D: no link target contains a ".." component.  Entry NAMES are
-   unrestricted ("..", "../target-evil/f", "a/../../x", absolute, empty segments, long ...): the
-   code now skips every cleaned name that climbs before it creates anything, and the base check is
-   path-wise.  The target is a clean absolute path whose prefixes are real directories, and links
-   already below it are harmless.  Any number of entries, any order, any types, any number of
-   passes, any requirer, any size limit. *)
+(* ================= unpack.go (after fixes c7e8b5e1, 05026580, 7b96bcf8) ================= *)
+(* FULL STRENGTH: any entry names, any link targets, any types, order, number of passes, requirer,
+   size limit, error strategy; also when a pass fails.  Hypotheses: the target is a clean absolute
+   path whose prefixes are real directories and which lstat()s / resolves within the OS limits; the
+   initial state is a well-formed tree (wf_fsb).  Nothing is assumed about links that already
+   exist below the target. *)
+
+(* every path whose state differs after UnpackSquashedFromTarball is the target or below it *)
+Theorem unpack_contained : forall cfg req fs es,
+  clean_abs (u_dir cfg) -> wf_fsb fs = true -> phys_dir fs [] (csegs (u_dir cfg)) = true ->
+  is_some (klstat fs (u_dir cfg)) = true -> is_some (eval_symlinks fs (u_dir cfg)) = true ->
+  forall p, lookup fs p <> lookup (fst (unpack_all cfg req fs es)) p ->
+            seg_prefix (csegs (u_dir cfg)) p = true.
+Proof. exact unpack_contained_lemma. Qed.
+Print Assumptions unpack_contained.
+
+(* no symlink left below the target resolves to a location outside it *)
+Theorem unpack_links_inside : forall cfg req fs es,
+  clean_abs (u_dir cfg) -> wf_fsb fs = true -> phys_dir fs [] (csegs (u_dir cfg)) = true ->
+  is_some (klstat fs (u_dir cfg)) = true -> is_some (eval_symlinks fs (u_dir cfg)) = true ->
+  links_resolve_inside (csegs (u_dir cfg)) (fst (unpack_all cfg req fs es)) = true.
+Proof. exact unpack_links_inside_lemma. Qed.
+Print Assumptions unpack_links_inside.
+
+(* D2: no entry name passes through the name of a link entry (link targets UNRESTRICTED: ".." is
+   allowed as long as TargetOutsideRoot accepts it) and there is no link below the target initially.
+   Then the lexical path IS the physical path: every link below the target after unpack_all sits
+   exactly at target ++ (segments of the cleaned name of a link entry) and stores that entry's target
+   (absolute ones re-rooted) ... *)
+Theorem unpack_lexical_is_physical : forall cfg req fs es,
+  clean_abs (u_dir cfg) -> wf_fsb fs = true -> phys_dir fs [] (csegs (u_dir cfg)) = true ->
+  is_some (klstat fs (u_dir cfg)) = true -> is_some (eval_symlinks fs (u_dir cfg)) = true ->
+  names_avoid_links es = true -> no_links_below (csegs (u_dir cfg)) fs = true ->
+  forall p t, strict_below (csegs (u_dir cfg)) p = true ->
+    lookup (fst (unpack_all cfg req fs es)) p = Some (NLink t) ->
+    exists l, In l es /\ is_link_entry l = true /\ p = csegs (u_dir cfg) ++ csegs (e_name l) /\
+              t = stored cfg l /\ target_outside_root (u_marker cfg) (clean (e_name l)) (e_link l) = false.
+Proof. exact unpack_lexical_is_physical_lemma. Qed.
+Print Assumptions unpack_lexical_is_physical.
+
+(* ... and therefore (with target_outside_root_sound, uuid markers fresh) every kept link's stored
+   target, read lexically from the link's own directory, stays inside the target: the theorem behind
+   the kept-link oracle the check claims outside D *)
+Theorem unpack_links_inside_on_D2 : forall cfg req fs es,
+  clean_abs (u_dir cfg) -> wf_fsb fs = true -> phys_dir fs [] (csegs (u_dir cfg)) = true ->
+  is_some (klstat fs (u_dir cfg)) = true -> is_some (eval_symlinks fs (u_dir cfg)) = true ->
+  names_avoid_links es = true -> no_links_below (csegs (u_dir cfg)) fs = true -> markers_fresh cfg es = true ->
+  links_lexically_inside (csegs (u_dir cfg)) (fst (unpack_all cfg req fs es)) = true.
+Proof. exact unpack_links_inside_on_D2_lemma. Qed.
+Print Assumptions unpack_links_inside_on_D2.
+
+(* The earlier domain-restricted forms (no ".." in link targets; they do not need wf_fsb and
+   describe the behaviour even without the final sweep) are kept: *)
 Theorem unpack_contained_on_D : forall cfg req fs es,
   clean_abs (u_dir cfg) ->
   phys_dir fs [] (csegs (u_dir cfg)) = true -> links_safe (csegs (u_dir cfg)) fs = true ->
@@ -62,18 +108,6 @@ Theorem unpack_contained_on_D : forall cfg req fs es,
             seg_prefix (csegs (u_dir cfg)) p = true.
 Proof. exact unpack_contained_on_D_lemma. Qed.
 Print Assumptions unpack_contained_on_D.
-
-(* in particular, at full strength for every archive without symlink / hard-link entries: this is
-   the statement the former witnesses "../target-evil/f" (prefix confusion) and "../../out/g"
-   (directories created before the check) refuted *)
-Theorem unpack_contained_without_links : forall cfg req fs es,
-  clean_abs (u_dir cfg) ->
-  phys_dir fs [] (csegs (u_dir cfg)) = true -> links_safe (csegs (u_dir cfg)) fs = true ->
-  forallb (fun e => negb (is_link_entry e)) es = true ->
-  forall p, lookup fs p <> lookup (fst (unpack_all cfg req fs es)) p ->
-            seg_prefix (csegs (u_dir cfg)) p = true.
-Proof. exact unpack_contained_without_links_lemma. Qed.
-Print Assumptions unpack_contained_without_links.
 
 Theorem unpack_links_inside_on_D : forall cfg req fs es,
   clean_abs (u_dir cfg) ->
@@ -115,6 +149,29 @@ Definition ex_entries : list entry :=
     W.reg [46;47;97;47;47;98;47;107];
     W.reg ([46;46;47] ++ W.b_evil ++ [47;102]);
     W.reg [97;47;46;46;47;46;46;47;120] ].
+
+Example unpack_full_hypotheses_hold :
+  clean_abs (u_dir W.cfg) /\ wf_fsb W.fs0 = true /\ phys_dir W.fs0 [] (csegs (u_dir W.cfg)) = true /\
+  is_some (klstat W.fs0 (u_dir W.cfg)) = true /\ is_some (eval_symlinks W.fs0 (u_dir W.cfg)) = true.
+Proof. vm_compute. repeat split; reflexivity. Qed.
+
+(* D2 with ".." in link targets: "a/b/l" -> "../c" (kept if a/c exists), "a/c/f", "k" -> "a/./b/../c/f" *)
+Definition ex_d2 : list entry :=
+  [ W.reg [97;47;99;47;102];
+    W.sym [97;47;98;47;108] [46;46;47;99];
+    W.sym [107] [97;47;46;47;98;47;46;46;47;99;47;102] ].
+
+Example unpack_D2_hypotheses_hold :
+  names_avoid_links ex_d2 = true /\ no_links_below (csegs (u_dir W.cfg)) W.fs0 = true /\
+  markers_fresh W.cfg ex_d2 = true /\ entries_in_D ex_d2 = false.
+Proof. vm_compute. repeat split; reflexivity. Qed.
+
+Example unpack_D2_run_is_nontrivial :
+  let fs' := fst (unpack_all W.cfg W.all_req W.fs0 ex_d2) in
+  lookup fs' (W.ds ++ [[97]; [98]; [108]]) = Some (NLink [46;46;47;99]) /\
+  lookup fs' (W.ds ++ [[107]]) = Some (NLink [97;47;46;47;98;47;46;46;47;99;47;102]) /\
+  links_lexically_inside W.ds fs' = true /\ links_resolve_inside W.ds fs' = true.
+Proof. vm_compute. repeat split; reflexivity. Qed.
 
 Example unpack_D_hypotheses_hold :
   clean_abs (u_dir W.cfg) /\ phys_dir W.fs0 [] (csegs (u_dir W.cfg)) = true /\
